@@ -148,7 +148,6 @@ type hpWorld struct {
 	nConn     int
 	handler   network.StreamHandler
 	pipes     []*memnet.Conn
-	adv       map[string]bool // valid addresses the remote put into CONNECT messages so far
 
 	remotes sync.WaitGroup // scripted remote goroutines
 	aux     sync.WaitGroup // helper goroutines of the fake (delayed closes, inbound conns during a dial)
